@@ -58,18 +58,29 @@ func (in idIn) ids() (built, set hash.Event, ep idx.Epoch, lam idx.Lamport) {
 	return
 }
 
+// pureDecode: a decoder reads its input; the buffer must hold the same bytes afterwards and a second decode of the same
+// buffer must give the same value (the specification's DecBE/DecLE are functions of the byte sequence).
+func (r *Report) pureDecode(sig string, vec interface{}, in []byte, dec func([]byte) uint64, want uint64) {
+	buf := append([]byte{}, in...)
+	v1 := dec(buf)
+	v2 := dec(buf)
+	r.eq(sig, "decode", vec, want, v1)
+	r.eq(sig+"-again", "second decode of the same buffer", vec, want, v2)
+	r.eq(sig+"-input", "input buffer after decoding", vec, in, buf)
+}
+
 func (r *Report) codec16(vec interface{}, n uint16, be, le []byte) {
+	r.pureDecode("codec:be16-decode", vec, be, func(b []byte) uint64 { return uint64(bigendian.BytesToUint16(b)) }, uint64(n))
+	r.pureDecode("codec:le16-decode", vec, le, func(b []byte) uint64 { return uint64(littleendian.BytesToUint16(b)) }, uint64(n))
 	r.eq("codec:be16", "bigendian.Uint16ToBytes", vec, be, bigendian.Uint16ToBytes(n))
-	r.eq("codec:be16-decode", "bigendian.BytesToUint16", vec, n, bigendian.BytesToUint16(be))
 	r.eq("codec:le16", "littleendian.Uint16ToBytes", vec, le, littleendian.Uint16ToBytes(n))
-	r.eq("codec:le16-decode", "littleendian.BytesToUint16", vec, n, littleendian.BytesToUint16(le))
 }
 
 func (r *Report) codec32(vec interface{}, n uint32, be, le []byte) {
+	r.pureDecode("codec:be32-decode", vec, be, func(b []byte) uint64 { return uint64(bigendian.BytesToUint32(b)) }, uint64(n))
+	r.pureDecode("codec:le32-decode", vec, le, func(b []byte) uint64 { return uint64(littleendian.BytesToUint32(b)) }, uint64(n))
 	r.eq("codec:be32", "bigendian.Uint32ToBytes", vec, be, bigendian.Uint32ToBytes(n))
-	r.eq("codec:be32-decode", "bigendian.BytesToUint32", vec, n, bigendian.BytesToUint32(be))
 	r.eq("codec:le32", "littleendian.Uint32ToBytes", vec, le, littleendian.Uint32ToBytes(n))
-	r.eq("codec:le32-decode", "littleendian.BytesToUint32", vec, n, littleendian.BytesToUint32(le))
 	r.eq("codec:idx-epoch", "idx.Epoch.Bytes", vec, be, idx.Epoch(n).Bytes())
 	r.eq("codec:idx-event", "idx.Event.Bytes", vec, be, idx.Event(n).Bytes())
 	r.eq("codec:idx-lamport", "idx.Lamport.Bytes", vec, be, idx.Lamport(n).Bytes())
@@ -85,10 +96,10 @@ func (r *Report) codec32(vec interface{}, n uint32, be, le []byte) {
 }
 
 func (r *Report) codec64(vec interface{}, n uint64, be, le []byte) {
+	r.pureDecode("codec:be64-decode", vec, be, func(b []byte) uint64 { return bigendian.BytesToUint64(b) }, n)
+	r.pureDecode("codec:le64-decode", vec, le, func(b []byte) uint64 { return littleendian.BytesToUint64(b) }, n)
 	r.eq("codec:be64", "bigendian.Uint64ToBytes", vec, be, bigendian.Uint64ToBytes(n))
-	r.eq("codec:be64-decode", "bigendian.BytesToUint64", vec, n, bigendian.BytesToUint64(be))
 	r.eq("codec:le64", "littleendian.Uint64ToBytes", vec, le, littleendian.Uint64ToBytes(n))
-	r.eq("codec:le64-decode", "littleendian.BytesToUint64", vec, n, littleendian.BytesToUint64(le))
 	r.eq("codec:idx-block", "idx.Block.Bytes", vec, be, idx.Block(n).Bytes())
 	r.eq("codec:idx-block-decode", "idx.BytesToBlock", vec, n, uint64(idx.BytesToBlock(be)))
 }
